@@ -119,6 +119,17 @@ Theorem C12_rate_bound_is_reached :
 Proof. exact (proj2 rate_example). Qed.
 Print Assumptions C12_rate_bound_is_reached.
 
+(* The outcome cache regenerated from today's engine/context.py (cache_outcome / get_cached_outcome) is the cache of ModelU_C12:
+   a store binds the key and drops nothing, a lookup finds the newest binding. *)
+Theorem C12_gen_cache_outcome_eq : forall (d : list (ModelU_C12.key * ModelU_C12.outcome)) k v, gen_cache_outcome d k v = (k, v) :: d.
+Proof. exact gen_cache_outcome_eq. Qed.
+Print Assumptions C12_gen_cache_outcome_eq.
+
+Theorem C12_gen_get_cached_outcome_eq : forall (d : list (ModelU_C12.key * ModelU_C12.outcome)) k,
+  gen_get_cached_outcome ModelU_C12.key_eqb d k = ModelU_C12.find_key k d.
+Proof. exact gen_get_cached_outcome_eq. Qed.
+Print Assumptions C12_gen_get_cached_outcome_eq.
+
 (* ---- the stateful phase (ModelP_C11: execute_state_machine_loop, one thread) ----
    After the stop request or the failure limit is visible at most ONE further step (request) is executed - the one whose
    entry test came just before - whatever Hypothesis does inside run(), wherever the stop arrives, for every limit. *)
